@@ -8,6 +8,7 @@ use std::ops::Range;
 
 use nom::Parser;
 use nom::branch::alt;
+use nom::bytes::complete::tag;
 use nom::character::complete::char;
 use nom::combinator::{cut, map, opt, success};
 use nom::multi::separated_list1;
@@ -299,27 +300,47 @@ fn iterator(input: Input) -> ParseResult<(ForIterator, Range<usize>)> {
     let start = input.pos();
     let (input, iterator) = alt((
         map(identifier, ForIterator::Identifier),
-        iterator_list,
-        iterator_range,
+        iterator_list_or_range,
     ))
     .parse(input)?;
     Ok((input, (iterator, input.get_span_from(start))))
 }
 
-fn iterator_list(input: Input) -> ParseResult<ForIterator> {
-    let (input, exprs) = delimited(
-        rtrim(char('(')),
-        separated_list1(rtrim(char(',')), primary_expression),
-        rtrim(char(')')),
-    )
-    .parse(input)?;
+/// Parse either a list `(a, b, ...)` or a range `(a..b)`.
+///
+/// The first expression is parsed once and what follows it decides between the two forms:
+/// trying one form then the other would parse it twice, which is exponential in the number of
+/// iterators nested in one another.
+fn iterator_list_or_range(input: Input) -> ParseResult<ForIterator> {
+    let (input, _) = rtrim(char('(')).parse(input)?;
+    let (mut input, first) = primary_expression(input)?;
+
+    if let Ok((input, _)) = rtrim(tag("..")).parse(input) {
+        let (input, to) = cut(primary_expression).parse(input)?;
+        let (input, _) = cut(rtrim(char(')'))).parse(input)?;
+        return Ok((
+            input,
+            ForIterator::Range {
+                from: Box::new(first),
+                to: Box::new(to),
+            },
+        ));
+    }
+
+    let mut exprs = vec![first];
+    while let Ok((i, _)) = rtrim(char(',')).parse(input) {
+        match primary_expression(i) {
+            Ok((i, expr)) => {
+                exprs.push(expr);
+                input = i;
+            }
+            Err(nom::Err::Error(_)) => break,
+            Err(e) => return Err(e),
+        }
+    }
+    let (input, _) = rtrim(char(')')).parse(input)?;
 
     Ok((input, ForIterator::List(exprs)))
-}
-
-fn iterator_range(input: Input) -> ParseResult<ForIterator> {
-    let (input, (from, to)) = range(input)?;
-    Ok((input, ForIterator::Range { from, to }))
 }
 
 /// Parse a set of rules.
